@@ -79,14 +79,22 @@ def makeOriented [LinearOrder K] {m : ℕ} (M : Matrix (Fin (m + 1)) (Fin (m + 1
 section ctors
 variable [LinearOrder K]
 
-/-- `Point.origin_to(force_oriented=False)`: `find_isometry(minkowski, [normalize(x)])` -/
-def originTo (r : K → K) (x : Fin (n + 1) → K) (ker : List (Fin (n + 1) → K)) : List (Fin (n + 1) → K) :=
-  findIsometry r (minkJ n) [normalizeVec r (minkJ n) x] ker
+/-- `np.where(normed[..., :1] < 0, -1, 1)`: the sign that moves a representative to the upper sheet -/
+def sheetSign (y : Fin (n + 1) → K) : K := if y 0 < 0 then -1 else 1
 
-/-- `TangentVector.origin_to(force_oriented=False)`: `find_isometry(minkowski, normalize([x, v]))`
-(`v` the tangent vector stored in `aux_data`, Minkowski-orthogonal to the base point `x`) -/
+/-- (repaired, 9e8c9e6) `Point.origin_to(force_oriented=False)`:
+`find_isometry(minkowski, [σ·normalize(x)])` with `σ = −1` iff the normalised time coordinate is negative -/
+def originTo (r : K → K) (x : Fin (n + 1) → K) (ker : List (Fin (n + 1) → K)) : List (Fin (n + 1) → K) :=
+  let xn := normalizeVec r (minkJ n) x
+  findIsometry r (minkJ n) [sheetSign xn • xn] ker
+
+/-- (repaired, 9e8c9e6) `TangentVector.origin_to(force_oriented=False)`:
+`find_isometry(minkowski, σ·normalize([x, v]))` (`v` the tangent vector stored in `aux_data`,
+Minkowski-orthogonal to the base point `x`; `σ` the sheet sign of the normalised base point) -/
 def tangentOriginTo (r : K → K) (x v : Fin (n + 1) → K) (ker : List (Fin (n + 1) → K)) : List (Fin (n + 1) → K) :=
-  findIsometry r (minkJ n) [normalizeVec r (minkJ n) x, normalizeVec r (minkJ n) v] ker
+  let xn := normalizeVec r (minkJ n) x
+  let vn := normalizeVec r (minkJ n) v
+  findIsometry r (minkJ n) [sheetSign xn • xn, sheetSign xn • vn] ker
 
 /-- the frame `(t, v̂)` completed by (repaired) `hyperbolic.spacelike_to`:
 `t = e₀ − projection(e₀, v̂)` -/
